@@ -3,42 +3,9 @@
 // Rsi/MyRSI (scale-invariant; negation maps gains to losses), NET (depends only on the order), CenterOfGravity (scale-invariant).
 // Vst, Vsct, WelfordOnline, CTI, EFT, TrendFlex, ReFlex, LaguerreRSI, Roc, BinaryEntropy, Ema, Alma and the linear filters are covered
 // by the bounded search on the real crate only (stated in the evidence).
+use crate::props::c00_affine::*;
 use crate::props::c04_averages::*;
 
-pub proof fn lemma_affine_index(w: Seq<T>, a: real, b: real)
-    ensures affine(w, a, b).len() == w.len(), forall|i: int| 0 <= i < w.len() ==> (#[trigger] affine(w, a, b)[i]).v() == a * w[i].v() + b
-{}
-pub proof fn lemma_smin_affine(w: Seq<T>, a: real, b: real)
-    requires w.len() > 0, a > 0real
-    ensures smin(affine(w, a, b)) == a * smin(w) + b, smax(affine(w, a, b)) == a * smax(w) + b
-{
-    let v = affine(w, a, b);
-    lemma_smin_is_min(w); lemma_smax_is_max(w);
-    let i0 = choose|i: int| 0 <= i < w.len() && smin(w) == w[i].v();
-    let i1 = choose|i: int| 0 <= i < w.len() && smax(w) == w[i].v();
-    assert(v[i0].v() == a * smin(w) + b); assert(v[i1].v() == a * smax(w) + b);
-    assert forall|i: int| 0 <= i < v.len() implies a * smin(w) + b <= #[trigger] v[i].v() by {
-        assert(a * smin(w) <= a * w[i].v()) by(nonlinear_arith) requires a > 0real, smin(w) <= w[i].v();
-    }
-    assert forall|i: int| 0 <= i < v.len() implies a * smax(w) + b >= #[trigger] v[i].v() by {
-        assert(a * smax(w) >= a * w[i].v()) by(nonlinear_arith) requires a > 0real, smax(w) >= w[i].v();
-    }
-    lemma_smin_unique(a * smin(w) + b, v); lemma_smax_unique(a * smax(w) + b, v);
-}
-// negation swaps Min with -Max
-pub proof fn lemma_smin_negate(w: Seq<T>)
-    requires w.len() > 0
-    ensures smin(affine(w, -1real, 0real)) == -smax(w), smax(affine(w, -1real, 0real)) == -smin(w)
-{
-    let v = affine(w, -1real, 0real);
-    lemma_smin_is_min(w); lemma_smax_is_max(w);
-    let i0 = choose|i: int| 0 <= i < w.len() && smin(w) == w[i].v();
-    let i1 = choose|i: int| 0 <= i < w.len() && smax(w) == w[i].v();
-    assert(v[i0].v() == -smin(w)); assert(v[i1].v() == -smax(w));
-    assert forall|i: int| 0 <= i < v.len() implies -smax(w) <= #[trigger] v[i].v() by { assert(v[i].v() == -w[i].v()); }
-    assert forall|i: int| 0 <= i < v.len() implies -smin(w) >= #[trigger] v[i].v() by { assert(v[i].v() == -w[i].v()); }
-    lemma_smin_unique(-smax(w), v); lemma_smax_unique(-smin(w), v);
-}
 // HLNormalizer: 2 (x - min)/(max - min) - 1 is unchanged by x -> a x + b
 pub proof fn lemma_hl_affine_invariant(w: Seq<T>, a: real, b: real)
     requires w.len() > 0, a > 0real
